@@ -93,3 +93,20 @@ Theorem Deposit_tie s h sender tid denom amount :
 Proof.
   unfold Deposit_accepted, handle. cbn [validate_basic]. cases.
 Qed.
+
+(* where the recipients of a new record come from (keeper.GetRecipients): a supported chain other than this one leaves
+   them to the oracle; any other foreign chain is refused; this chain asks the NFT contract (the owner table of the
+   model stands for FindInternalOwner: the EVM is trusted, see DESIGN section 9) *)
+(* TIE: GetRecipients_by_oracle GetRecipients_refused *)
+Theorem GetRecipients_tie s chain contract tok :
+  get_recipients s chain contract tok =
+  if GetRecipients_by_oracle (mem_bytes chain (s_supported s)) (s_chain s) chain then Ok []
+  else if GetRecipients_refused (s_chain s) chain then Rejected
+  else match owner_get (s_owners s) (hex_to_address contract) (hex_to_hash tok) with
+       | Some o => if o =? 0 then Rejected else Ok [mkRecip o 1]
+       | None => Rejected
+       end.
+Proof.
+  unfold get_recipients, GetRecipients_by_oracle, GetRecipients_refused.
+  destruct (mem_bytes chain (s_supported s)); destruct (bytes_eqb (s_chain s) chain); reflexivity.
+Qed.
